@@ -22,6 +22,12 @@ CONFIGS = {
     "c-semt": dict(lang="c", defs=[], incs=["platform/gcc_no_tls", "platform/linux", "platform/gcc", "platform/posix", "platform/x86_64"],
                    srcs=COMMON + ["platform/posix/src/nsync_panic.c", "platform/posix/src/per_thread_waiter.c", "platform/posix/src/time_rep.c",
                                   "platform/posix/src/yield.c", "platform/posix/src/nsync_semaphore_sem_t.c"], hdefs=[]),
+    # the production way of finding a thread's waiter: a __thread variable.  Compiled with -femulated-tls, so that every access is a
+    # call to __emutls_get_address, which the seam maps to per-fibre storage (gcc has no -femulated-tls on this target, so this one
+    # configuration is compiled with clang 14, whose -fsanitize=thread pass calls the same hooks; it also brings platform/clang's headers in)
+    "c-futex-tls": dict(lang="c", cc="clang", defs=["-femulated-tls"], incs=["platform/linux", "platform/gcc_new", "platform/clang", "platform/gcc", "platform/posix", "platform/x86_64"],
+                        srcs=COMMON + ["platform/posix/src/nsync_panic.c", "platform/posix/src/per_thread_waiter.c", "platform/posix/src/time_rep.c",
+                                       "platform/posix/src/yield.c", "platform/linux/src/nsync_semaphore_futex.c"], hdefs=[]),
     "c11-futex": dict(lang="c", defs=["-DNSYNC_ATOMIC_C11", "-std=gnu11"],
                       incs=["platform/gcc_no_tls", "platform/linux", "platform/c11", "platform/gcc", "platform/posix", "platform/x86_64"],
                       srcs=COMMON + ["platform/posix/src/nsync_panic.c", "platform/posix/src/per_thread_waiter.c", "platform/posix/src/time_rep.c",
@@ -72,7 +78,7 @@ def build(cfgname, force=False, cov=False):
         shutil.rmtree(out)
     os.makedirs(out)
     incs = ["-I" + os.path.join(REPO, d) for d in cfg["incs"]] + ["-I" + os.path.join(REPO, "public"), "-I" + os.path.join(REPO, "internal")]
-    cc = ["gcc"] if cfg["lang"] == "c" else ["g++", "-x", "c++"]
+    cc = [cfg.get("cc", "gcc")] if cfg["lang"] == "c" else ["g++", "-x", "c++"]
     nflags = ["-O1", "-g", "-fsanitize=thread", "-fno-omit-frame-pointer", "-fno-builtin-memset", "-fno-builtin-memcpy", "-w"] + cfg["defs"]
     if cov:
         nflags += ["--coverage"]
